@@ -329,9 +329,16 @@ impl<'tcx> Exporter<'tcx> {
             };
             let dspan = tcx.def_span(did);
             let (file, line, exp) = self.loc(dspan);
-            if dspan.from_expansion() && kstr != "closure" {
+            // only what a derive or an attribute macro wrote is skipped; a function a `macro_rules!` of the workspace expands to is
+            // workspace code like any other
+            let generated = dspan.from_expansion()
+                && matches!(
+                    dspan.ctxt().outer_expn_data().kind,
+                    rustc_span::ExpnKind::Macro(rustc_span::MacroKind::Derive | rustc_span::MacroKind::Attr, _)
+                );
+            if generated && kstr != "closure" {
                 // derive / attribute-macro generated bodies (serde, schemars, thiserror, PartialEq…)
-                skipped.push(J::obj(vec![("path", s(self.path(did))), ("why", s("from_expansion"))]));
+                skipped.push(J::obj(vec![("path", s(self.path(did))), ("dp", s(self.dp(did))), ("why", s("from_expansion"))]));
                 continue;
             }
             if kstr == "closure" {
@@ -342,7 +349,13 @@ impl<'tcx> Exporter<'tcx> {
                     match tcx.def_kind(p) {
                         DefKind::Closure => p = tcx.parent(p),
                         _ => {
-                            if tcx.def_span(p).from_expansion() {
+                            let ps = tcx.def_span(p);
+                            if ps.from_expansion()
+                                && matches!(
+                                    ps.ctxt().outer_expn_data().kind,
+                                    rustc_span::ExpnKind::Macro(rustc_span::MacroKind::Derive | rustc_span::MacroKind::Attr, _)
+                                )
+                            {
                                 skip = true;
                             }
                             break;
